@@ -5,4 +5,18 @@
 
 pub mod util;
 pub mod refcodec;
+pub mod gen;
+pub mod c01;
+pub mod c02;
+pub mod c04;
+pub mod c06;
+pub mod c07;
+pub mod c09;
+#[cfg(feature = "statistics")]
+pub mod c10;
+pub mod c13;
 pub mod c14;
+pub mod c15;
+pub mod c16;
+pub mod c18;
+pub mod c19;
